@@ -118,7 +118,8 @@ Record Inv (c : cfg) (s : st) : Prop := MkInv {
   i_spl : q_splitters_accumulate (qk c) = false -> stat s = Init \/ splitters (sto s) = 1;
   i_pnd : q_keep_pending (qk c) = false /\ q_keep_savepoint (qk c) = false ->
           forall p, pend (sto s) = Some p -> map fst (p_ops p) = a_ops s /\ map fst (p_srs p) = a_srs s;
-  i_tk : q_ticker_once (qk c) = false -> (ticker s = 1 <-> stat s = Running)
+  i_tk : q_ticker_once (qk c) = false -> (ticker s = 1 <-> stat s = Running);
+  i_wr : writing s <> 0 -> writing s <= ctr (sto s) /\ forall p, pend (sto s) = Some p -> writing s < ctr (sto s)
 }.
 
 Lemma inv_init : forall c, Inv c init.
@@ -133,6 +134,7 @@ Proof.
   - intros _. left. reflexivity.
   - intros _ p H; discriminate.
   - intros _. split; intros H; discriminate.
+  - intros H. exfalso. apply H. reflexivity.
 Qed.
 
 Lemma is_dead_false : forall c s k e, is_dead c s k = false -> In e (hb s) -> fst e = k -> expired c (now s) e = false.
@@ -146,7 +148,7 @@ Qed.
 
 Lemma purge_inv : forall c s, Inv c s -> Inv c (purge c s).
 Proof.
-  intros c s I. destruct I. constructor; cbn [purge ops srs hb stat a_ops a_srs sto dep_ck now ticker]; auto.
+  intros c s I. destruct I. constructor; cbn [purge ops srs hb stat a_ops a_srs sto dep_ck now ticker holdw writing]; auto.
   - apply sorted_filter; assumption.
   - apply sorted_filter; assumption.
   - intros n Hn. apply filter_In in Hn. destruct Hn as [Hn Hd]. apply negb_true_iff in Hd.
@@ -174,6 +176,10 @@ Proof.
   - intros [H H2]. rewrite H. destruct (pend (sto s)) as [p0|]; [|intros; discriminate].
     rewrite H2. cbn [andb]. intros; discriminate.
   - intros Q. split; [|discriminate]. intros T. apply (i_tk0 Q) in T. contradiction.
+  - cbn [writing]. intros W. destruct (i_wr0 W) as [W1 W2]. split; [exact W1|].
+    destruct (q_keep_pending (qk c)); [exact W2|].
+    destruct (pend (sto s)) as [p0|] eqn:P0; [|intros; discriminate].
+    destruct (q_keep_savepoint (qk c) && p_sp p0); [exact W2 | intros; discriminate].
 Qed.
 
 Lemma tk_stop_ne1 : forall t, tk_stop t <> 1.
@@ -181,14 +187,14 @@ Proof. intros t. unfold tk_stop. destruct (t =? 0); discriminate. Qed.
 
 Lemma set_stat_inv : forall c s, Inv c s -> stat s <> Init -> Inv c (set_stat s Paused).
 Proof.
-  intros c s I Hn. destruct I. constructor; cbn [set_stat ops srs hb stat a_ops a_srs sto dep_ck now ticker]; auto.
+  intros c s I Hn. destruct I. constructor; cbn [set_stat ops srs hb stat a_ops a_srs sto dep_ck now ticker holdw writing]; auto.
   - intros H. right. destruct (i_spl0 H) as [E|E]; [contradiction | exact E].
   - intros _. split; [intros T; exfalso; eapply tk_stop_ne1; eauto | discriminate].
 Qed.
 
 Lemma go_running_inv : forall c s, Inv c s -> stat s <> Init -> Inv c (go_running c s).
 Proof.
-  intros c s I Hn. destruct I. constructor; cbn [go_running ops srs hb stat a_ops a_srs sto dep_ck now ticker]; auto.
+  intros c s I Hn. destruct I. constructor; cbn [go_running ops srs hb stat a_ops a_srs sto dep_ck now ticker holdw writing]; auto.
   - intros H. right. destruct (i_spl0 H) as [E|E]; [contradiction | exact E].
   - intros Q. unfold tk_arm. rewrite Q. split; reflexivity.
 Qed.
@@ -230,57 +236,143 @@ Proof.
   - split; [lia|]. split; [reflexivity|]. split; [reflexivity|]. intros p' H0; inversion H0; auto.
 Qed.
 
+Lemma finish_pub : forall so p so' r pub,
+  finish_if_complete so p = (so', r, pub) -> pub <> 0 -> pend so' = None /\ pub = p_id p.
+Proof.
+  intros so p so' r pub H Hp. unfold finish_if_complete in H.
+  destruct (complete p); [destruct (splitters so =? 1)|]; inversion H; subst; cbn; try contradiction; auto.
+Qed.
+
+Lemma with_sto_inv : forall c s so h w,
+  Inv c s ->
+  completed so <= ctr so ->
+  (forall p, pend so = Some p -> p_id p = ctr so /\ completed so < ctr so) ->
+  splitters so = splitters (sto s) ->
+  (q_keep_pending (qk c) = false /\ q_keep_savepoint (qk c) = false -> forall p, pend so = Some p -> map fst (p_ops p) = a_ops s /\ map fst (p_srs p) = a_srs s) ->
+  (w <> 0 -> w <= ctr so /\ forall p, pend so = Some p -> w < ctr so) ->
+  Inv c (MkSt (now s) (ops s) (srs s) (hb s) (stat s) (a_ops s) (a_srs s) (dep_ck s) so (ticker s) h w).
+Proof.
+  intros c s so h w I A B C D E. destruct I. constructor; cbn [ops srs hb stat a_ops a_srs sto dep_ck now ticker holdw writing]; auto.
+  intros H. rewrite C. auto.
+Qed.
+
 Lemma set_sto_inv : forall c s so,
   Inv c s ->
   completed so <= ctr so ->
   (forall p, pend so = Some p -> p_id p = ctr so /\ completed so < ctr so) ->
   splitters so = splitters (sto s) ->
   (q_keep_pending (qk c) = false /\ q_keep_savepoint (qk c) = false -> forall p, pend so = Some p -> map fst (p_ops p) = a_ops s /\ map fst (p_srs p) = a_srs s) ->
+  (writing s <> 0 -> writing s <= ctr so /\ forall p, pend so = Some p -> writing s < ctr so) ->
   Inv c (set_sto s so).
-Proof.
-  intros c s so I A B C D. destruct I. constructor; cbn [set_sto ops srs hb stat a_ops a_srs sto dep_ck now ticker]; auto.
-  intros H. rewrite C. auto.
-Qed.
+Proof. intros. unfold set_sto. apply with_sto_inv; assumption. Qed.
 
-Lemma ack_op_inv : forall c s n id so r pub, Inv c s -> ack_op (sto s) n id = (so, r, pub) -> Inv c (set_sto s so).
+(* what an ack leaves: the facts needed to rebuild the invariant for set_sto and for the held-write branch *)
+Lemma ack_op_facts : forall c s n id so r pub, Inv c s -> ack_op (sto s) n id = (so, r, pub) ->
+  completed so <= ctr so /\ ctr so = ctr (sto s) /\ splitters so = splitters (sto s) /\
+  (forall p, pend so = Some p -> p_id p = ctr so /\ completed so < ctr so) /\
+  (q_keep_pending (qk c) = false /\ q_keep_savepoint (qk c) = false -> forall p, pend so = Some p -> map fst (p_ops p) = a_ops s /\ map fst (p_srs p) = a_srs s) /\
+  (forall p, pend so = Some p -> exists p0, pend (sto s) = Some p0) /\
+  (pub <> 0 -> pend so = None /\ pub = ctr (sto s)).
 Proof.
-  intros c s n id so r pub I H. unfold ack_op in H. destruct (pend (sto s)) as [p|] eqn:P.
-  2:{ inversion H; subst. destruct s; exact I. }
-  destruct (negb (p_id p =? id)). { inversion H; subst. destruct s; exact I. }
-  pose proof (i_sto _ _ I) as [A B]. destruct (B p P) as [B1 B2].
+  intros c s n id so r pub I H. pose proof (i_sto _ _ I) as [A B]. unfold ack_op in H. destruct (pend (sto s)) as [p|] eqn:P.
+  2:{ inversion H; subst.
+      split; [exact A|]. split; [reflexivity|]. split; [reflexivity|].
+      split; [intros q Q; rewrite P in Q; discriminate|].
+      split; [intros _ q Q; rewrite P in Q; discriminate|].
+      split; [intros q Q; rewrite P in Q; discriminate|].
+      intros X; exfalso; apply X; reflexivity. }
+  destruct (negb (p_id p =? id)).
+  { inversion H; subst.
+    split; [exact A|]. split; [reflexivity|]. split; [reflexivity|].
+    split; [intros q Q; first [apply B; exact Q | rewrite P in Q; apply B; exact Q]|].
+    split; [intros Hk q Q; apply (i_pnd _ _ I Hk q Q)|].
+    split; [intros q Q; exists p; first [exact P | reflexivity]|].
+    intros X; exfalso; apply X; reflexivity. }
+  destruct (B p eq_refl) as [B1 B2].
   set (p' := match mark n (p_ops p) with Some l => MkPending (p_id p) l (p_srs p) (p_sp p) | None => p end) in *.
   assert (K : p_id p' = p_id p /\ map fst (p_ops p') = map fst (p_ops p) /\ p_srs p' = p_srs p).
   { unfold p'. destruct (mark n (p_ops p)) as [l|] eqn:M; cbn; [|auto]. repeat split. eapply mark_keys; eauto. }
   destruct K as [K1 [K2 K3]].
   destruct (finish_store _ _ _ _ _ H A (eq_trans K1 B1) B2) as [F1 [F2 [F3 F4]]].
-  apply set_sto_inv; auto.
+  split; [exact F1|]. split; [exact F3|]. split; [exact F2|]. split; [|split; [|split]].
   - intros q Q. destruct (F4 q Q) as [-> F5]. rewrite F3, F5. split; [congruence | exact B2].
   - intros Hk q Q. destruct (F4 q Q) as [-> _]. destruct (i_pnd _ _ I Hk p P) as [G1 G2]. rewrite K2, K3. auto.
+  - intros q Q. exists p. reflexivity.
+  - intros Hp. destruct (finish_pub _ _ _ _ _ H Hp) as [X Y]. split; [exact X | congruence].
 Qed.
 
-Lemma ack_sr_inv : forall c s n id so r pub, Inv c s -> ack_sr (sto s) n id = (so, r, pub) -> Inv c (set_sto s so).
+Lemma ack_sr_facts : forall c s n id so r pub, Inv c s -> ack_sr (sto s) n id = (so, r, pub) ->
+  completed so <= ctr so /\ ctr so = ctr (sto s) /\ splitters so = splitters (sto s) /\
+  (forall p, pend so = Some p -> p_id p = ctr so /\ completed so < ctr so) /\
+  (q_keep_pending (qk c) = false /\ q_keep_savepoint (qk c) = false -> forall p, pend so = Some p -> map fst (p_ops p) = a_ops s /\ map fst (p_srs p) = a_srs s) /\
+  (forall p, pend so = Some p -> exists p0, pend (sto s) = Some p0) /\
+  (pub <> 0 -> pend so = None /\ pub = ctr (sto s)).
 Proof.
-  intros c s n id so r pub I H. unfold ack_sr in H. destruct (pend (sto s)) as [p|] eqn:P.
-  2:{ inversion H; subst. destruct s; exact I. }
-  destruct (negb (p_id p =? id)). { inversion H; subst. destruct s; exact I. }
+  intros c s n id so r pub I H. pose proof (i_sto _ _ I) as [A B]. unfold ack_sr in H. destruct (pend (sto s)) as [p|] eqn:P.
+  2:{ inversion H; subst.
+      split; [exact A|]. split; [reflexivity|]. split; [reflexivity|].
+      split; [intros q Q; rewrite P in Q; discriminate|].
+      split; [intros _ q Q; rewrite P in Q; discriminate|].
+      split; [intros q Q; rewrite P in Q; discriminate|].
+      intros X; exfalso; apply X; reflexivity. }
+  destruct (negb (p_id p =? id)).
+  { inversion H; subst.
+    split; [exact A|]. split; [reflexivity|]. split; [reflexivity|].
+    split; [intros q Q; first [apply B; exact Q | rewrite P in Q; apply B; exact Q]|].
+    split; [intros Hk q Q; apply (i_pnd _ _ I Hk q Q)|].
+    split; [intros q Q; exists p; first [exact P | reflexivity]|].
+    intros X; exfalso; apply X; reflexivity. }
   destruct (mark n (p_srs p)) as [l|] eqn:M.
-  2:{ inversion H; subst. destruct s; exact I. }
-  pose proof (i_sto _ _ I) as [A B]. destruct (B p P) as [B1 B2].
+  2:{ inversion H; subst.
+    split; [exact A|]. split; [reflexivity|]. split; [reflexivity|].
+    split; [intros q Q; first [apply B; exact Q | rewrite P in Q; apply B; exact Q]|].
+    split; [intros Hk q Q; apply (i_pnd _ _ I Hk q Q)|].
+    split; [intros q Q; exists p; first [exact P | reflexivity]|].
+    intros X; exfalso; apply X; reflexivity. }
+  destruct (B p eq_refl) as [B1 B2].
   destruct (finish_store _ _ _ _ _ H A B1 B2) as [F1 [F2 [F3 F4]]].
-  apply set_sto_inv; auto.
+  split; [exact F1|]. split; [exact F3|]. split; [exact F2|]. split; [|split; [|split]].
   - intros q Q. destruct (F4 q Q) as [-> F5]. rewrite F3, F5. split; [exact B1 | exact B2].
   - intros Hk q Q. destruct (F4 q Q) as [-> _]. destruct (i_pnd _ _ I Hk p P) as [G1 G2]. cbn [p_ops p_srs].
     split; [exact G1|]. rewrite <- G2. eapply mark_keys; eauto.
+  - intros q Q. exists p. reflexivity.
+  - intros Hp. destruct (finish_pub _ _ _ _ _ H Hp) as [X Y]. split; [exact X | cbn [p_id] in Y; congruence].
+Qed.
+
+(* the invariant after an ack, through after_ack (plain, or with the snapshot write held) *)
+Lemma after_ack_inv : forall c s so r pub, Inv c s ->
+  completed so <= ctr so /\ ctr so = ctr (sto s) /\ splitters so = splitters (sto s) /\
+  (forall p, pend so = Some p -> p_id p = ctr so /\ completed so < ctr so) /\
+  (q_keep_pending (qk c) = false /\ q_keep_savepoint (qk c) = false -> forall p, pend so = Some p -> map fst (p_ops p) = a_ops s /\ map fst (p_srs p) = a_srs s) /\
+  (forall p, pend so = Some p -> exists p0, pend (sto s) = Some p0) /\
+  (pub <> 0 -> pend so = None /\ pub = ctr (sto s)) ->
+  Inv c (fst (after_ack s so r pub)).
+Proof.
+  intros c s so r pub I [F1 [F3 [F2 [F4 [F5 [F6 F7]]]]]]. unfold after_ack.
+  pose proof (i_sto _ _ I) as [A B].
+  destruct (holdw s && negb (pub =? 0)) eqn:Hh; cbn [fst].
+  - apply andb_true_iff in Hh. destruct Hh as [_ Hp]. apply negb_true_iff, N.eqb_neq in Hp.
+    destruct (F7 Hp) as [Pn Pc].
+    apply with_sto_inv; cbn [completed ctr pend splitters].
+    + exact I.
+    + lia.
+    + rewrite Pn. intros q Q; discriminate.
+    + exact F2.
+    + rewrite Pn. intros _ q Q; discriminate.
+    + intros _. split; [lia|]. rewrite Pn. intros q Q; discriminate.
+  - apply set_sto_inv; auto.
+    intros W. destruct (i_wr _ _ I W) as [W1 W2]. rewrite F3. split; [exact W1|].
+    intros q Q. destruct (F6 q Q) as [p0 P0]. eapply W2; eauto.
 Qed.
 
 (* ---------------------------------------------------------------- steps: the state the job evaluates *)
 (* [pre c s o] is the state on which evaluateClusterStatus runs in step [o] (None: the step evaluates nothing) *)
 Definition pre (c : cfg) (s : st) (o : op) : option st :=
   match o with
-  | ORegOp n => Some (MkSt (now s) (ins n (ops s)) (srs s) (hb_set (true, n) (now s) (hb s)) (stat s) (a_ops s) (a_srs s) (dep_ck s) (sto s) (ticker s))
-  | ORegSr n => Some (MkSt (now s) (ops s) (ins n (srs s)) (hb_set (false, n) (now s) (hb s)) (stat s) (a_ops s) (a_srs s) (dep_ck s) (sto s) (ticker s))
-  | ODeregOp n => Some (MkSt (now s) (rem n (ops s)) (srs s) (hb s) (stat s) (a_ops s) (a_srs s) (dep_ck s) (sto s) (ticker s))
-  | ODeregSr n => Some (MkSt (now s) (ops s) (rem n (srs s)) (hb s) (stat s) (a_ops s) (a_srs s) (dep_ck s) (sto s) (ticker s))
+  | ORegOp n => Some (MkSt (now s) (ins n (ops s)) (srs s) (hb_set (true, n) (now s) (hb s)) (stat s) (a_ops s) (a_srs s) (dep_ck s) (sto s) (ticker s) (holdw s) (writing s))
+  | ORegSr n => Some (MkSt (now s) (ops s) (ins n (srs s)) (hb_set (false, n) (now s) (hb s)) (stat s) (a_ops s) (a_srs s) (dep_ck s) (sto s) (ticker s) (holdw s) (writing s))
+  | ODeregOp n => Some (MkSt (now s) (rem n (ops s)) (srs s) (hb s) (stat s) (a_ops s) (a_srs s) (dep_ck s) (sto s) (ticker s) (holdw s) (writing s))
+  | ODeregSr n => Some (MkSt (now s) (ops s) (rem n (srs s)) (hb s) (stat s) (a_ops s) (a_srs s) (dep_ck s) (sto s) (ticker s) (holdw s) (writing s))
   | OFin ok => match stat s with
                | Starting => Some (if ok then go_running c s else set_stat s Paused)
                | _ => None
@@ -313,14 +405,16 @@ Proof.
     destruct (create_checkpoint (sto s) (a_ops s) (a_srs s)) as [so [id|]]; cbn; auto 10.
   - destruct (stat s) eqn:E; cbn; auto 10.
     destruct (create_savepoint (sto s) (a_ops s) (a_srs s)) as [so [[id cr]|]]; cbn; auto 10.
-  - destruct (ack_op (sto s) n id) as [[so r] pub]. cbn. auto 10.
-  - destruct (ack_sr (sto s) n id) as [[so r] pub]. cbn. auto 10.
+  - destruct (ack_op (sto s) n id) as [[so r] pub]. unfold after_ack. destruct (holdw s && negb (pub =? 0)); cbn; auto 10.
+  - destruct (ack_sr (sto s) n id) as [[so r] pub]. unfold after_ack. destruct (holdw s && negb (pub =? 0)); cbn; auto 10.
+  - destruct (writing s =? 0); cbn; auto 10.
+  - destruct (writing s =? 0); cbn; auto 10.
 Qed.
 
 Lemma pre_inv : forall c s o s1, Inv c s -> pre c s o = Some s1 -> Inv c s1.
 Proof.
   intros c s o s1 I H. destruct o; cbn [pre] in H; try discriminate.
-  - inversion H; subst; clear H. destruct I. constructor; cbn [ops srs hb stat a_ops a_srs sto dep_ck now ticker]; auto.
+  - inversion H; subst; clear H. destruct I. constructor; cbn [ops srs hb stat a_ops a_srs sto dep_ck now ticker holdw writing]; auto.
     + apply sorted_ins; assumption.
     + intros m Hm. apply In_ins in Hm. destruct (N.eq_dec m n) as [->|Hne].
       * exists ((true, n), now s). split; [apply In_hb_set; left; reflexivity | reflexivity].
@@ -328,7 +422,7 @@ Proof.
         apply In_hb_set. right. split; [exact He|]. rewrite Hk. intros X; inversion X; contradiction.
     + intros m Hm. destruct (i_hbr0 m Hm) as [e [He Hk]]. exists e. split; [|exact Hk].
       apply In_hb_set. right. split; [exact He|]. rewrite Hk. discriminate.
-  - inversion H; subst; clear H. destruct I. constructor; cbn [ops srs hb stat a_ops a_srs sto dep_ck now ticker]; auto.
+  - inversion H; subst; clear H. destruct I. constructor; cbn [ops srs hb stat a_ops a_srs sto dep_ck now ticker holdw writing]; auto.
     + apply sorted_ins; assumption.
     + intros m Hm. destruct (i_hbo0 m Hm) as [e [He Hk]]. exists e. split; [|exact Hk].
       apply In_hb_set. right. split; [exact He|]. rewrite Hk. discriminate.
@@ -336,10 +430,10 @@ Proof.
       * exists ((false, n), now s). split; [apply In_hb_set; left; reflexivity | reflexivity].
       * destruct Hm as [->|Hm]; [contradiction|]. destruct (i_hbr0 m Hm) as [e [He Hk]]. exists e. split; [|exact Hk].
         apply In_hb_set. right. split; [exact He|]. rewrite Hk. intros X; inversion X; contradiction.
-  - inversion H; subst; clear H. destruct I. constructor; cbn [ops srs hb stat a_ops a_srs sto dep_ck now ticker]; auto.
+  - inversion H; subst; clear H. destruct I. constructor; cbn [ops srs hb stat a_ops a_srs sto dep_ck now ticker holdw writing]; auto.
     + apply sorted_filter; assumption.
     + intros m Hm. apply In_rem in Hm. apply i_hbo0, Hm.
-  - inversion H; subst; clear H. destruct I. constructor; cbn [ops srs hb stat a_ops a_srs sto dep_ck now ticker]; auto.
+  - inversion H; subst; clear H. destruct I. constructor; cbn [ops srs hb stat a_ops a_srs sto dep_ck now ticker holdw writing]; auto.
     + apply sorted_filter; assumption.
     + intros m Hm. apply In_rem in Hm. apply i_hbr0, Hm.
   - destruct (stat s) eqn:E; try discriminate. inversion H; subst; clear H.
@@ -359,6 +453,7 @@ Proof.
       apply set_sto_inv; cbn [completed ctr pend splitters]; auto; try lia.
       * intros p Hp. inversion Hp; subst. cbn. split; [reflexivity | lia].
       * intros _ p Hp. inversion Hp; subst. cbn. rewrite !map_fst_false. auto.
+      * intros W. destruct (i_wr _ _ I W) as [W1 _]. split; [lia | intros; lia].
     + destruct (stat s) eqn:E; try exact I.
       unfold create_savepoint. destruct (pend (sto s)) as [p|] eqn:Pn.
       * destruct (p_sp p); [exact I|]. cbn [fst].
@@ -366,12 +461,27 @@ Proof.
         apply set_sto_inv; cbn [completed ctr pend splitters]; auto.
         -- intros q Hq. inversion Hq; subst. cbn. auto.
         -- intros Hk q Hq. inversion Hq; subst. cbn. apply (i_pnd _ _ I Hk p Pn).
+        -- intros W. destruct (i_wr _ _ I W) as [W1 W2]. split; [exact W1 | intros q Hq; eapply W2; eauto].
       * cbn [fst]. pose proof (i_sto _ _ I) as [A B].
         apply set_sto_inv; cbn [completed ctr pend splitters]; auto; try lia.
         -- intros p Hp. inversion Hp; subst. cbn. split; [reflexivity | lia].
         -- intros _ p Hp. inversion Hp; subst. cbn. rewrite !map_fst_false. auto.
-    + destruct (ack_op (sto s) n id) as [[so r] pub] eqn:A. cbn [fst]. eapply ack_op_inv; eauto.
-    + destruct (ack_sr (sto s) n id) as [[so r] pub] eqn:A. cbn [fst]. eapply ack_sr_inv; eauto.
+        -- intros W. destruct (i_wr _ _ I W) as [W1 _]. split; [lia | intros; lia].
+    + destruct (ack_op (sto s) n id) as [[so r] pub] eqn:A. apply after_ack_inv; [exact I|]. eapply ack_op_facts; eauto.
+    + destruct (ack_sr (sto s) n id) as [[so r] pub] eqn:A. apply after_ack_inv; [exact I|]. eapply ack_sr_facts; eauto.
+    + destruct (writing s =? 0) eqn:W; [|exact I]. cbn [fst].
+      destruct I. constructor; cbn [ops srs hb stat a_ops a_srs sto dep_ck now ticker holdw writing]; auto.
+      intros X. exfalso. apply X. reflexivity.
+    + destruct (writing s =? 0) eqn:W; [exact I|]. cbn [fst]. apply N.eqb_neq in W.
+      pose proof (i_sto _ _ I) as [A B]. destruct (i_wr _ _ I W) as [W1 W2].
+      destruct (q_install_superseded (qk c) || (completed (sto s) <? writing s)).
+      * apply with_sto_inv; cbn [completed ctr pend splitters]; auto.
+        -- intros q Q. destruct (B q Q) as [B1 _]. split; [exact B1 | eapply W2; eauto].
+        -- apply (i_pnd _ _ I).
+        -- intros X. exfalso. apply X. reflexivity.
+      * apply with_sto_inv; auto.
+        -- apply (i_pnd _ _ I).
+        -- intros X. exfalso. apply X. reflexivity.
 Qed.
 
 Lemma run_fst_app : forall c l s, fst (run c s l) = fold_left (fun s o => fst (step c s o)) l s.
@@ -533,52 +643,104 @@ Proof.
 Qed.
 
 (* ---------------------------------------------------------------- T3: latest checkpoint *)
-Lemma step_completed : forall c s o, Inv c s ->
-  completed (sto s) <= completed (sto (fst (step c s o))) /\
-  (o_published (snd (step c s o)) <> 0 ->
-     completed (sto (fst (step c s o))) = o_published (snd (step c s o)) /\ completed (sto s) < o_published (snd (step c s o))).
+Definition pub_cases (old new pub : N) : Prop :=
+  (pub = 0 /\ new = old) \/ (pub <> 0 /\ new = pub /\ old < pub).
+
+Lemma finish_completed : forall so p so' r pub,
+  finish_if_complete so p = (so', r, pub) -> p_id p = ctr so -> completed so < ctr so ->
+  pub_cases (completed so) (completed so') pub.
 Proof.
-  intros c s o I. pose proof (i_sto _ _ I) as [A B].
+  intros so p so' r pub H A B. unfold finish_if_complete in H.
+  destruct (complete p); [destruct (splitters so =? 1)|]; inversion H; subst; cbn [completed].
+  - right. split; [lia|]. split; [reflexivity | lia].
+  - left. auto.
+  - left. auto.
+Qed.
+
+Lemma ack_op_completed : forall c s n id so r pub, Inv c s -> ack_op (sto s) n id = (so, r, pub) ->
+  pub_cases (completed (sto s)) (completed so) pub.
+Proof.
+  intros c s n id so r pub I H. pose proof (i_sto _ _ I) as [A B]. unfold ack_op in H.
+  destruct (pend (sto s)) as [p|] eqn:P; [|inversion H; subst; left; auto].
+  destruct (negb (p_id p =? id)); [inversion H; subst; left; auto|].
+  destruct (B p eq_refl) as [B1 B2].
+  eapply finish_completed; [exact H | | exact B2].
+  destruct (mark n (p_ops p)); cbn; exact B1.
+Qed.
+
+Lemma ack_sr_completed : forall c s n id so r pub, Inv c s -> ack_sr (sto s) n id = (so, r, pub) ->
+  pub_cases (completed (sto s)) (completed so) pub.
+Proof.
+  intros c s n id so r pub I H. pose proof (i_sto _ _ I) as [A B]. unfold ack_sr in H.
+  destruct (pend (sto s)) as [p|] eqn:P; [|inversion H; subst; left; auto].
+  destruct (negb (p_id p =? id)); [inversion H; subst; left; auto|].
+  destruct (mark n (p_srs p)) as [l|]; [|inversion H; subst; left; auto].
+  destruct (B p eq_refl) as [B1 B2].
+  eapply finish_completed; [exact H | exact B1 | exact B2].
+Qed.
+
+Lemma after_ack_completed : forall s so r pub,
+  pub_cases (completed (sto s)) (completed so) pub ->
+  pub_cases (completed (sto s)) (completed (sto (fst (after_ack s so r pub)))) (o_published (snd (after_ack s so r pub))).
+Proof.
+  intros s so r pub H. unfold after_ack. destruct (holdw s && negb (pub =? 0)); cbn.
+  - left. auto.
+  - exact H.
+Qed.
+
+(* every step either publishes nothing and leaves the current checkpoint alone, or publishes a strictly newer one that
+   becomes current (the snapshot of a write that returns late is not installed over a newer one) *)
+Lemma step_pub_cases : forall c s o, Inv c s -> q_install_superseded (qk c) = false ->
+  pub_cases (completed (sto s)) (completed (sto (fst (step c s o)))) (o_published (snd (step c s o))).
+Proof.
+  intros c s o I Q.
   assert (EV : forall s1, completed (sto (fst (evaluate c s1))) = completed (sto s1)).
   { intros s1. unfold evaluate. set (sp := purge c s1). change (completed (sto s1)) with (completed (sto sp)).
     destruct (stat sp); try reflexivity.
     - destruct (_ || _); reflexivity.
     - destruct (_ || _); reflexivity.
     - destruct (healthy sp); reflexivity. }
-  assert (FIN : forall p so r pub, pend (sto s) = Some p -> p_id p = ctr (sto s) -> finish_if_complete (sto s) p = (so, r, pub) ->
-            completed (sto s) <= completed so /\ (pub <> 0 -> completed so = pub /\ completed (sto s) < pub)).
-  { intros p so r pub P Q F. destruct (B p P) as [_ B2]. unfold finish_if_complete in F.
-    destruct (complete p); [destruct (splitters (sto s) =? 1)|]; inversion F; subst; cbn [completed]; split; try lia; try (intros X; lia); try (intros X; congruence). }
   destruct o; cbn [step].
   1-4: match goal with |- context [evaluate ?cc ?x] => pose proof (EV x) as X; destruct (evaluate cc x) as [s2 ds] end;
-       cbn [fst snd o_published mk_obs] in *; rewrite X; cbn; split; [lia | intros Y; congruence].
-  - cbn. split; [lia | congruence].
-  - destruct (stat s); try (cbn; split; [lia | congruence]).
+       cbn [fst snd o_published mk_obs] in *; rewrite X; cbn; left; auto.
+  - cbn. left. auto.
+  - destruct (stat s); try (cbn; left; auto; fail).
     destruct ok; match goal with |- context [evaluate ?cc ?x] => pose proof (EV x) as X; destruct (evaluate cc x) as [s2 ds] end;
-      cbn [fst snd o_published mk_obs] in *; rewrite X; cbn; split; try lia; congruence.
-  - destruct (ticker s =? 1); try (cbn; split; [lia | congruence]).
-    unfold create_checkpoint. destruct (pend (sto s)); cbn; split; try lia; congruence.
-  - destruct (stat s); try (cbn; split; [lia | congruence]).
-    unfold create_savepoint. destruct (pend (sto s)) as [p|]; [destruct (p_sp p)|]; cbn; split; try lia; congruence.
-  - unfold ack_op. destruct (pend (sto s)) as [p|] eqn:P; [|cbn; split; [lia|congruence]].
-    destruct (negb (p_id p =? id)); [cbn; split; [lia|congruence]|].
-    destruct (B p eq_refl) as [B1 B2].
-    match goal with |- context [finish_if_complete ?so ?q] => destruct (finish_if_complete so q) as [[so' r] pub] eqn:F end.
-    cbn [fst snd set_sto sto o_published].
-    unfold finish_if_complete in F.
-    match type of F with context [complete ?q] => destruct (complete q) end; [destruct (splitters (sto s) =? 1)|];
-      inversion F; subst; cbn [completed]; (split; [try lia | intros Y; try congruence]).
-    + destruct (mark n (p_ops p)); cbn; lia.
-    + destruct (mark n (p_ops p)); cbn; split; try lia; reflexivity.
-  - unfold ack_sr. destruct (pend (sto s)) as [p|] eqn:P; [|cbn; split; [lia|congruence]].
-    destruct (negb (p_id p =? id)); [cbn; split; [lia|congruence]|].
-    destruct (mark n (p_srs p)) as [l|]; [|cbn; split; [lia|congruence]].
-    destruct (B p eq_refl) as [B1 B2].
-    match goal with |- context [finish_if_complete ?so ?q] => destruct (finish_if_complete so q) as [[so' r] pub] eqn:F end.
-    cbn [fst snd set_sto sto o_published].
-    unfold finish_if_complete in F.
-    match type of F with context [complete ?q] => destruct (complete q) end; [destruct (splitters (sto s) =? 1)|];
-      inversion F; subst; cbn [completed p_id]; (split; [try lia | intros Y; try congruence]); split; try lia; reflexivity.
+      cbn [fst snd o_published mk_obs] in *; rewrite X; cbn; left; auto.
+  - destruct (ticker s =? 1); try (cbn; left; auto; fail).
+    unfold create_checkpoint. destruct (pend (sto s)); cbn; left; auto.
+  - destruct (stat s); try (cbn; left; auto; fail).
+    unfold create_savepoint. destruct (pend (sto s)) as [p|]; [destruct (p_sp p)|]; cbn; left; auto.
+  - destruct (ack_op (sto s) n id) as [[so r] pub] eqn:A. apply after_ack_completed. eapply ack_op_completed; eauto.
+  - destruct (ack_sr (sto s) n id) as [[so r] pub] eqn:A. apply after_ack_completed. eapply ack_sr_completed; eauto.
+  - destruct (writing s =? 0); cbn; left; auto.
+  - destruct (writing s =? 0) eqn:W; [cbn; left; auto|]. apply N.eqb_neq in W. rewrite Q. cbn [orb].
+    destruct (completed (sto s) <? writing s) eqn:L; cbn.
+    + apply N.ltb_lt in L. right. auto.
+    + left. auto.
+Qed.
+
+Lemma step_completed : forall c s o, Inv c s -> q_install_superseded (qk c) = false ->
+  completed (sto s) <= completed (sto (fst (step c s o))) /\
+  (o_published (snd (step c s o)) <> 0 ->
+     completed (sto (fst (step c s o))) = o_published (snd (step c s o)) /\ completed (sto s) < o_published (snd (step c s o))).
+Proof.
+  intros c s o I Q. destruct (step_pub_cases c s o I Q) as [[P E]|[P [E L]]].
+  - split; [lia | intros X; contradiction].
+  - split; [lia | auto].
+Qed.
+
+(* the current checkpoint is the greatest id ever published (0 if none) *)
+Definition max_pub (bs : list obs) (start : N) : N := fold_left (fun m b => N.max m (o_published b)) bs start.
+
+Lemma run_max_pub : forall c l s, Inv c s -> q_install_superseded (qk c) = false ->
+  completed (sto (fst (run c s l))) = max_pub (snd (run c s l)) (completed (sto s)).
+Proof.
+  intros c l. induction l as [|o t IH]; intros s I Q; cbn [run]; [reflexivity|].
+  pose proof (step_pub_cases c s o I Q) as PC. pose proof (step_inv c s o I) as I1.
+  destruct (step c s o) as [s1 b] eqn:E. cbn [fst snd] in *. specialize (IH s1 I1 Q).
+  destruct (run c s1 t) as [s2 bs]. cbn [fst snd max_pub fold_left] in *. rewrite IH. unfold max_pub. f_equal.
+  destruct PC as [[P X]|[P [X L]]]; rewrite X; lia.
 Qed.
 
 (* ---------------------------------------------------------------- T4: acks of all members complete the checkpoint *)
@@ -625,6 +787,7 @@ Proof.
 Qed.
 
 Lemma acks_complete : forall c l s p id,
+  holdw s = false ->
   pend (sto s) = Some p -> p_id p = id -> splitters (sto s) = 1 ->
   NoDup (map fst (p_ops p)) -> NoDup (map fst (p_srs p)) ->
   NoDup l -> (forall a, In a l <-> ack_of id p a) -> l <> [] ->
@@ -632,7 +795,7 @@ Lemma acks_complete : forall c l s p id,
   Forall (fun b => o_res b = 0) (snd (run c s l)) /\ (exists b, In b (snd (run c s l)) /\ o_published b = id) /\
   stat (fst (run c s l)) = stat s /\ a_ops (fst (run c s l)) = a_ops s /\ a_srs (fst (run c s l)) = a_srs s.
 Proof.
-  intros c l. induction l as [|a l' IH]; intros s p id P Pid Spl NDo NDr ND Hl Hne; [contradiction|].
+  intros c l. induction l as [|a l' IH]; intros s p id Hw P Pid Spl NDo NDr ND Hl Hne; [contradiction|].
   inversion ND as [|? ? Ha NDl]; subst.
   (* the state after the first ack, in both cases: a pending snapshot p' whose unacked members are exactly l' *)
   assert (STEP : exists p',
@@ -654,7 +817,8 @@ Proof.
           -- cbn [p_srs] in Hm.
              destruct (proj2 (Hl (OAckSr m (p_id p))) (or_intror (ex_intro _ m (conj eq_refl Hm)))) as [X|X]; [discriminate | exact X].
       + cbn [step]. unfold ack_op. rewrite P, N.eqb_refl. cbn [negb]. rewrite M.
-        destruct (finish_if_complete (sto s) (MkPending (p_id p) l2 (p_srs p) (p_sp p))) as [[so r] pub]. reflexivity.
+        destruct (finish_if_complete (sto s) (MkPending (p_id p) l2 (p_srs p) (p_sp p))) as [[so r] pub].
+        unfold after_ack. rewrite Hw. reflexivity.
     - destruct (mark_spec n (p_srs p) NDr Hin) as [l2 [M [K C]]].
       exists (MkPending (p_id p) (p_ops p) l2 (p_sp p)). cbn [p_id p_ops p_srs]. split; [reflexivity|]. split; [exact NDo|]. split; [rewrite K; exact NDr|]. split.
       + intros a'. split.
@@ -668,7 +832,8 @@ Proof.
           -- cbn [p_srs] in Hm. apply C in Hm. destruct Hm as [[_ X]|[Hmn Hm]]; [discriminate|].
              destruct (proj2 (Hl (OAckSr m (p_id p))) (or_intror (ex_intro _ m (conj eq_refl Hm)))) as [X|X]; [inversion X; congruence | exact X].
       + cbn [step]. unfold ack_sr. rewrite P, N.eqb_refl. cbn [negb]. rewrite M.
-        destruct (finish_if_complete (sto s) (MkPending (p_id p) (p_ops p) l2 (p_sp p))) as [[so r] pub]. reflexivity. }
+        destruct (finish_if_complete (sto s) (MkPending (p_id p) (p_ops p) l2 (p_sp p))) as [[so r] pub].
+        unfold after_ack. rewrite Hw. reflexivity. }
   destruct STEP as [p' [Pid' [NDo' [NDr' [Hl' St]]]]].
   cbn [run]. rewrite St. clear St. unfold finish_if_complete.
   destruct (complete p') eqn:Cp.
@@ -686,7 +851,8 @@ Proof.
     set (s1 := set_sto s (MkStore (Some p') (completed (sto s)) (ctr (sto s)) (splitters (sto s)))).
     assert (P1 : pend (sto s1) = Some p') by reflexivity.
     assert (Spl1 : splitters (sto s1) = 1) by exact Spl.
-    specialize (IH s1 p' (p_id p) P1 Pid' Spl1 NDo' NDr' NDl Hl' Hne').
+    assert (Hw1 : holdw s1 = false) by exact Hw.
+    specialize (IH s1 p' (p_id p) Hw1 P1 Pid' Spl1 NDo' NDr' NDl Hl' Hne').
     destruct (run c s1 l') as [s2 bs] eqn:R. cbn [fst snd] in *.
     destruct IH as [A [B [C [[b [Hb1 Hb2]] [D [E F]]]]]].
     split; [exact A|]. split; [congruence|]. split; [constructor; [reflexivity | exact C]|].
@@ -820,11 +986,19 @@ Proof.
 Qed.
 
 Lemma published_is_newer_proof : forall c l o,
+  q_install_superseded (qk c) = false ->
   completed (sto (exec c l)) <= completed (sto (fst (step c (exec c l) o))) /\
   (o_published (snd (step c (exec c l) o)) <> 0 ->
    completed (sto (fst (step c (exec c l) o))) = o_published (snd (step c (exec c l) o)) /\
    completed (sto (exec c l)) < o_published (snd (step c (exec c l) o))).
-Proof. intros c l o. apply step_completed, exec_inv. Qed.
+Proof. intros c l o Q. apply step_completed; [apply exec_inv | exact Q]. Qed.
+
+(* the checkpoint a deployment is told to restore is the GREATEST id published so far in the history (0 if none),
+   also when the file write of an older, fully acknowledged checkpoint returns after a newer one was published *)
+Lemma current_is_max_published_proof : forall c l,
+  q_install_superseded (qk c) = false ->
+  completed (sto (exec c l)) = max_pub (snd (run c init l)) 0.
+Proof. intros c l Q. unfold exec. apply (run_max_pub c l init (inv_init c) Q). Qed.
 
 (* T4 *)
 Definition member_ack (s : st) (id : N) (a : op) : Prop :=
@@ -843,7 +1017,7 @@ Lemma checkpoints_resume_proof : forall c l acks starter,
   q_keep_pending (qk c) = false -> q_splitters_accumulate (qk c) = false -> q_ticker_once (qk c) = false -> (0 < wc c)%nat ->
   starter = OTick \/ starter = OSavepoint ->
   let s := exec c l in
-  stat s = Running -> pend (sto s) = None ->
+  stat s = Running -> pend (sto s) = None -> holdw s = false ->
   let id := ctr (sto s) + 1 in
   NoDup acks -> (forall a, In a acks <-> member_ack s id a) ->
   let s1 := fst (step c s starter) in
@@ -856,7 +1030,7 @@ Lemma checkpoints_resume_proof : forall c l acks starter,
   Forall (fun b => o_res b = 0) (snd r) /\ (exists b, In b (snd r) /\ o_published b = id) /\
   stat (fst r) = Running.
 Proof.
-  intros c l acks starter Qp Qs Qt Hw Hst s E Pn id ND Hacks s1 r.
+  intros c l acks starter Qp Qs Qt Hw Hst s E Pn Hh id ND Hacks s1 r.
   pose proof (exec_inv c l) as I. fold s in I.
   assert (T : step c s starter =
               (set_sto s (MkStore (Some (MkPending id (map (fun n => (n, false)) (a_ops s)) (map (fun n => (n, false)) (a_srs s)) (starter_sp starter)))
@@ -908,13 +1082,13 @@ Qed.
 Lemma checkpoints_resume_inflight_proof : forall c l p acks,
   q_keep_pending (qk c) = false -> q_keep_savepoint (qk c) = false -> q_splitters_accumulate (qk c) = false ->
   let s := exec c l in
-  stat s = Running -> pend (sto s) = Some p ->
+  stat s = Running -> pend (sto s) = Some p -> holdw s = false ->
   NoDup acks -> (forall a, In a acks <-> ack_of (p_id p) p a) -> acks <> [] ->
   (forall a, ack_of (p_id p) p a -> member_ack s (p_id p) a) /\
   pend (sto (fst (run c s acks))) = None /\ completed (sto (fst (run c s acks))) = p_id p /\
   Forall (fun b => o_res b = 0) (snd (run c s acks)) /\ stat (fst (run c s acks)) = Running.
 Proof.
-  intros c l p acks Qp Qv Qs s E P ND Hacks Hne. pose proof (exec_inv c l) as I. fold s in I.
+  intros c l p acks Qp Qv Qs s E P Hh ND Hacks Hne. pose proof (exec_inv c l) as I. fold s in I.
   destruct (i_pnd _ _ I (conj Qp Qv) p P) as [Ko Kr].
   destruct (i_asm _ _ I) as [La [Lr [So Sr]]]; [congruence|].
   destruct (i_spl _ _ I Qs) as [X|Spl]; [congruence|].
@@ -922,7 +1096,7 @@ Proof.
   - intros a [[n [-> H]]|[n [-> H]]]; [left|right]; exists n; (split; [reflexivity|]).
     + rewrite <- Ko. apply in_map_iff. exists (n, false). auto.
     + rewrite <- Kr. apply in_map_iff. exists (n, false). auto.
-  - destruct (acks_complete c acks s p (p_id p) P eq_refl Spl) as [R1 [R2 [R3 [R4 [R5 _]]]]]; auto.
+  - destruct (acks_complete c acks s p (p_id p) Hh P eq_refl Spl) as [R1 [R2 [R3 [R4 [R5 _]]]]]; auto.
     + rewrite Ko. apply sorted_NoDup, So.
     + rewrite Kr. apply sorted_NoDup, Sr.
     + split; [exact R1|]. split; [exact R2|]. split; [exact R3|]. rewrite R5. exact E.
@@ -936,7 +1110,7 @@ Definition hist_d18 : list op := [ORegOp 0; ORegSr 0; OFin true; OTick; ODeregOp
 Definition hist_d30 : list op := [ORegOp 0; ORegSr 0; OFin true; OTick; OAckOp 0 1; OAckSr 0 1; ODeregOp 0; ORegOp 1; OFin true].
 
 Lemma checkpoints_resume_refuted_keep_pending_proof :
-  let c := cfg_of (MkQuirks true false false false false false) in
+  let c := cfg_of (MkQuirks true false false false false false false) in
   let s := exec c hist_d18 in
   stat s = Running /\ a_ops s = [1] /\ a_srs s = [0] /\
   (* every tick from now on starts nothing, whatever the members of the running assembly acknowledge *)
@@ -944,7 +1118,7 @@ Lemma checkpoints_resume_refuted_keep_pending_proof :
             completed (sto s') = 0 /\ o_started (snd (step c s' OTick)) = [].
 Proof.
   cbv zeta. split; [vm_compute; reflexivity|]. split; [vm_compute; reflexivity|]. split; [vm_compute; reflexivity|].
-  intros k. set (c := cfg_of (MkQuirks true false false false false false)). set (s := exec c hist_d18).
+  intros k. set (c := cfg_of (MkQuirks true false false false false false false)). set (s := exec c hist_d18).
   assert (T : forall k, fst (run c s (repeat OTick k ++ [OAckOp 1 1; OAckSr 0 1; OAckOp 1 2; OAckSr 0 2; OTick])) =
                         fst (run c s [OAckOp 1 1; OAckSr 0 1; OAckOp 1 2; OAckSr 0 2; OTick])).
   { intros j. induction j as [|j IH]; [reflexivity|]. cbn [repeat app]. rewrite <- IH.
@@ -956,7 +1130,7 @@ Proof.
 Qed.
 
 Lemma checkpoints_resume_refuted_splitters_proof :
-  let c := cfg_of (MkQuirks false true false false false false) in
+  let c := cfg_of (MkQuirks false true false false false false false) in
   let s := exec c hist_d30 in
   stat s = Running /\ a_ops s = [1] /\ a_srs s = [0] /\ pend (sto s) = None /\
   map o_res (snd (run c s [OTick; OAckOp 1 2; OAckSr 0 2])) = [0; 0; 2] /\
@@ -969,7 +1143,7 @@ Definition hist_sp_a : list op := [ORegOp 0; ORegSr 0; OFin true; OSavepoint; OA
 Definition hist_sp_b : list op := [ORegOp 0; ORegSr 0; OFin true; OTick; OSavepoint; OAckSr 0 1; ODeregOp 0; ORegOp 1; OFin true].
 
 Lemma checkpoints_resume_refuted_keep_savepoint_proof :
-  let c := cfg_of (MkQuirks false false false true false false) in
+  let c := cfg_of (MkQuirks false false false true false false false) in
   forall h, h = hist_sp_a \/ h = hist_sp_b ->
   let s := exec c h in
   stat s = Running /\ a_ops s = [1] /\ a_srs s = [0] /\
@@ -980,7 +1154,7 @@ Proof. intros c h [-> | ->]; vm_compute; repeat split; reflexivity. Qed.
 (* seeded C15r2-1: the ticker is created once only; every pause stops it: after the first recovery it never fires again *)
 Definition hist_tk : list op := [ORegOp 0; ORegSr 0; OFin true; OTick; OAckOp 0 1; OAckSr 0 1; ODeregOp 0; ORegOp 1; OFin true].
 Lemma checkpoints_resume_refuted_ticker_once_proof :
-  let c := cfg_of (MkQuirks false false false false true false) in
+  let c := cfg_of (MkQuirks false false false false true false false) in
   let s := exec c hist_tk in
   stat s = Running /\ a_ops s = [1] /\ a_srs s = [0] /\ pend (sto s) = None /\ completed (sto s) = 1 /\
   ticker s = 2 /\ step c s OTick = (s, mk_obs s []).
@@ -1116,7 +1290,7 @@ Qed.
    the job refuses the ack (result 5: the slot stays, complete but unreported); after the redeployment every barrier of
    5 is rejected. On the repaired code (current) the same history completes checkpoint 5. *)
 Lemma operator_slot_refuted_keep_complete_proof :
-  let q := MkQuirks false false false false false true in
+  let q := MkQuirks false false false false false true false in
   let o1 := fst (oper_barriers (oper_deploy q (MkOper [] None) [0; 1]) [0; 1] 4 false) in
   snd (oper_barriers (oper_deploy q (MkOper [] None) [0; 1]) [0; 1] 4 false) = [0; 5] /\
   o_slot o1 = Some (MkSlot 4 []) /\
@@ -1138,3 +1312,18 @@ Proof.
   - apply N.eqb_neq in H. rewrite N.eqb_sym, H. reflexivity.
   - rewrite N.eqb_refl. reflexivity.
 Qed.
+
+(* seeded C15r6-3: finishSnapshotAsync installs the snapshot it wrote although a newer one is published. Checkpoint 1 is
+   fully acknowledged while its file write is held; checkpoint 2 is started, acknowledged and published; the write of 1
+   returns; the operator leaves and a new one registers: the new assembly is deployed from 1 although 2 was published.
+   On the repaired code (current) the same history deploys from 2. *)
+Definition hist_slow_write : list op :=
+  [ORegOp 0; ORegSr 0; OFin true; OHoldW; OTick; OAckOp 0 1; OAckSr 0 1; OTick; OAckOp 0 2; OAckSr 0 2; OReleaseW; ODeregOp 0; ORegOp 1].
+Lemma redeploy_from_latest_refuted_install_superseded_proof :
+  let deps q := o_deps (last (snd (run (cfg_of q) init hist_slow_write)) (mk_obs init [])) in
+  map o_published (snd (run (cfg_of (MkQuirks false false false false false false true)) init hist_slow_write))
+    = [0; 0; 0; 0; 0; 0; 0; 0; 0; 2; 1; 0; 0] /\
+  deps (MkQuirks false false false false false false true) = [MkDep [1] [0] [1] true] /\
+  map o_published (snd (run (cfg_of current) init hist_slow_write)) = [0; 0; 0; 0; 0; 0; 0; 0; 0; 2; 0; 0; 0] /\
+  deps current = [MkDep [1] [0] [2] true].
+Proof. vm_compute. repeat split; reflexivity. Qed.
